@@ -7,6 +7,7 @@ from .. import universal as U
 from ..storejudge import init_arguments
 
 ID = 'C11'
+TECHNIQUE = 'runtime monitoring: render events judged against bit-pattern images, parse events against the code the string denotes; rendered strings fed back by every route; input-container monitor'
 TITLE = 'bin/hex/base_repr strings'
 RULE = ('render events bin()/bin(frac_dot)/bin(prefix)/hex()/base_repr(b) are compared with the two\'s-complement image of the receiver\'s codes '
         '(refmodel.bin_image / hex_image / base_numeral), element-wise for arrays; parse events (constructor, call, set_val, from_bin method and '
